@@ -63,9 +63,12 @@ def rule_R04_1(ctx):
                     src = g.canon_op(cc.args[0])
                     src = tuple(p for p in src if p not in ("&", "*"))
                     root = g.root_fn()
-                    if len(src) == 1 and src[0][0] == "arg" \
-                            and g.locals[src[0][1]] == "&mut eval::scope::ScopeStack":
-                        ok = True
+                    root_ty = g.root_fn().locals[src[0][1]] if src and src[0][0] == "arg" and not g.is_closure \
+                        else (g.locals[src[0][1]] if src and src[0][0] == "arg" else "")
+                    if src and src[0][0] == "arg" and anchors.is_chain_ty(prog, root_ty):
+                        want = tuple(("f", p[1]) for p in anchors.chain_pi(prog, root_ty) if p != "*")
+                        if tuple(src[1:]) == want:
+                            ok = True
                     why = "clone of %s" % (src,)
             r.inst("%s: closure captured = %s" % (g.path, why))
             if ok:
@@ -137,7 +140,7 @@ def block_evaluators(prog):
         if "eval::Escape" not in f.locals[0]:
             continue
         tys = [f.locals[i] for i in range(1, f.arg_count + 1)]
-        if "&mut eval::scope::ScopeStack" in tys and BLOCK_TY in tys:
+        if any(anchors.is_chain_ty(prog, t) for t in tys) and BLOCK_TY in tys:
             out.append(f)
     return out
 
@@ -164,7 +167,7 @@ def rule_R04_3(ctx):
                 continue
             # is the block argument the stmts of a Func value?
             bi = [i for i, t in enumerate(c.argtys) if t == BLOCK_TY]
-            si = [i for i, t in enumerate(c.argtys) if t == "&mut eval::scope::ScopeStack"]
+            si = [i for i, t in enumerate(c.argtys) if anchors.is_chain_ty(prog, t)]
             if not bi or not si:
                 continue
             ob = pv.origins(f, c.args[bi[0]], ("*",))
@@ -172,10 +175,10 @@ def rule_R04_3(ctx):
             if not from_func:
                 continue
             found += 1
-            osx = pv.origins(f, c.args[si[0]], ("*",))
+            osx = pv.origins(f, c.args[si[0]], anchors.chain_pi(prog, c.argtys[si[0]]))
             from_closure = any(_mentions_field(x, FUNC, "closure") for x in osx)
             own_scopes = [x for x in osx if x[0] == "param" and
-                          f.root_fn().locals[x[2]] == "&mut eval::scope::ScopeStack"
+                          anchors.is_chain_ty(prog, f.root_fn().locals[x[2]])
                           and x[1] == f.root_fn().path]
             r.inst("%s: body of a Func evaluated on chain from Func.closure=%s, caller chain=%s"
                    % (f.path, from_closure, bool(own_scopes)))
@@ -228,11 +231,11 @@ def rule_R04_4(ctx):
     r.inst("%s is called from %s" % (seq.path, sorted(set(c.fn.path for c in callers))))
     for c in callers:
         g = c.fn
-        si = [i for i, t in enumerate(c.argtys) if t == "&mut eval::scope::ScopeStack"]
+        si = [i for i, t in enumerate(c.argtys) if anchors.is_chain_ty(prog, t)]
         if not si:
             r.unproven.append("%s: no scope-chain argument" % g.path)
             continue
-        cp = g.canon_op(c.args[si[0]])
+        cp = g.canon_op(anchors.unwrap_carrier(prog, g, c.args[si[0]]))
         cp = tuple(p for p in cp if p not in ("&", "*"))
         ok = False
         if cp and cp[0][0] == "call":
